@@ -220,6 +220,33 @@ def build(p):
             return [np.array(f), vm]
 
         return fn, (mol, gen)
+    if e == "flapl":
+        # fractional-Laplacian orbital operators: contraction callbacks of this package executed inside PySCF's own
+        # parallel grid loop (dynamic schedule over atom x 56-point block items): several atoms, several blocks
+        from ciderpress.pyscf.descriptors import _fl_desc_getter
+        from ciderpress.pyscf.frac_lapl import eval_kao
+
+        from mc import fixtures as F
+
+        mol = F.make_mol(p.get("mol", "H2O"))
+        st = F.nlof_settings(p.get("cls", "FLd"))
+        rng = np.random.RandomState(21 + seed)
+        n = p["n"]
+        coords = np.ascontiguousarray(mol.atom_coords()[rng.randint(0, mol.natm, n)] + rng.randn(n, 3) * 0.9)
+        dm = F.make_dm(mol, "D1", seed)
+
+        class _G:
+            pass
+
+        g = _G()
+        g.mol, g.coords, g.weights, g.non0tab, g.cutoff = mol, coords, np.ones(n), None, 0
+
+        def fn():
+            kao = eval_kao(st.slist, mol, coords, deriv=0, n1=st.nd1)
+            f = _fl_desc_getter(mol, g, dm, st)
+            return [np.array(kao), np.array(f)]
+
+        return fn, (mol, st)
     if e == "fft":
         from ciderpress.lib.fft_plan import FFTWrapper
 
@@ -350,6 +377,8 @@ def entry_table(tier):
             for n in ([1, 3, 8] if quick else SIZES + [130]):
                 T.append({"entry": "sdmx", "mol": mol, "fam": fam, "n": n})
     T.append({"entry": "sdmx", "mol": "HF", "fam": "SDMXG1", "n": 130})
+    for cls, n in (("FLd", 400), ("FL", 400), ("FLd2", 130), ("FL0", 57)):
+        T.append({"entry": "flapl", "mol": "H2O", "cls": cls, "n": n})
     T.append({"entry": "sdmx", "mol": "HF", "fam": "SDMXG1", "n": 5, "nspin": 2})
     # FFT copy loops
     for dims in ([(3,), (4, 5), (2, 3, 4), (2, 3, 5)]):
